@@ -239,7 +239,7 @@ def write_evidence(run: Run, violations: int, scratch: bool = False):
     edir = os.path.join(EVIDENCE_DIR, ".scratch") if scratch else EVIDENCE_DIR
     os.makedirs(edir, exist_ok=True)
     path = os.path.join(edir, f"{run.property_id}.json")
-    tmp = path + ".tmp"
+    tmp = path + f".{os.getpid()}.tmp"
     with open(tmp, "w") as f:
         json.dump(ev, f, indent=1, sort_keys=False)
     os.replace(tmp, path)
@@ -403,7 +403,8 @@ def main(mod, argv=None):
     tempfile.tempdir = rundir
     try:
         run = execute(mod, a.tier, seed, mutant=a.mutant, workers=a.workers, only_cases=only)
-        code = report(mod, run, scratch=bool(a.mutant or a.replay))
+        # evidence of record is only written by whole runs against /repo itself (not mutants, replays or other trees)
+        code = report(mod, run, scratch=bool(a.mutant or a.replay or os.path.realpath(REPO) != "/repo"))
     except HarnessError as e:
         print("HARNESS-ERROR:", e, file=sys.stderr)
         return 2
